@@ -6,6 +6,9 @@ All statements quantify over every text `s` (array of code points), no length bo
 import CLModel.Parser.Formats
 import CLModel.Parser.Fluent
 import CLModel.Proofs.Walk
+import CLModel.Proofs.WalkLoc
+import CLModel.Proofs.ParserProgress
+import CLModel.Proofs.FluentWalk
 namespace C01
 open P Rx
 
@@ -17,33 +20,39 @@ def bomSkip (s : Array Nat) : Nat := if s[0]? = some 0xFEFF then 1 else 0
 theorem walk_lossless_properties (s : Array Nat) :
     ∃ es, walk .properties s = .done es ∧ Tiles s.size 0 0 es ∧
       (es.map (Entry.all s)).flatten = s.toList := by
-  sorry
+  simpa [walk] using walk_lossless _ s 0 ()
+    (progress_of_eok _ _ (fun _ off h => propsGetNext_eok s off h))
 
 /-- DTD: same, except that a leading byte-order mark is dropped. -/
 theorem walk_lossless_dtd (s : Array Nat) :
     ∃ es, walk .dtd s = .done es ∧ Tiles s.size (bomSkip s) 0 es ∧
       (es.map (Entry.all s)).flatten = s.toList.drop (bomSkip s) := by
-  sorry
+  refine walk_lossless _ s (bomSkip s) () (fun _ off h => ?_)
+  obtain ⟨h1, h2, h3, h4, _⟩ := dtdGetNext_ok s off h
+  exact ⟨h1, h2, h3, h4⟩
 
 theorem walk_lossless_ini (s : Array Nat) :
     ∃ es, walk .ini s = .done es ∧ Tiles s.size 0 0 es ∧
       (es.map (Entry.all s)).flatten = s.toList := by
-  sorry
+  simpa [walk] using walk_lossless _ s 0 ()
+    (progress_of_eok _ _ (fun _ off h => iniGetNext_eok s off h))
 
 theorem walk_lossless_inc (s : Array Nat) :
     ∃ es, walk .inc s = .done es ∧ Tiles s.size 0 0 es ∧
       (es.map (Entry.all s)).flatten = s.toList := by
-  sorry
+  simpa [walk] using walk_lossless _ s 0 false
+    (progress_of_eok _ _ (fun fel off h => definesGetNext_eok s fel off h))
 
 theorem walk_lossless_po (s : Array Nat) :
     ∃ es, walk .po s = .done es ∧ Tiles s.size 0 0 es ∧
       (es.map (Entry.all s)).flatten = s.toList := by
-  sorry
+  simpa [walk] using walk_lossless _ s 0 ()
+    (progress_of_eok _ _ (fun _ off h => getNext_eok poCfg poCfg_ok s off h))
 
 /-- the localizable-only view is exactly the entity and junk entries of the full view -/
 theorem localizable_is_filter (f : Fmt) (s : Array Nat) (es : List Entry) (h : walk f s = .done es) :
     walkLoc f s = .done (es.filter Entry.localizable) := by
-  sorry
+  cases f <;> simp only [walk, walkLoc] at h ⊢ <;> rw [walkFromLoc_eq, h] <;> rfl
 
 /-- contract of the external fluent.syntax parser: body spans are increasing, disjoint and inside the text -/
 def BodyContract (s : Array Nat) : List FEntry → Nat → Prop
@@ -55,15 +64,35 @@ def BodyContract (s : Array Nat) : List FEntry → Nat → Prop
 theorem fluent_lossless (s : Array Nat) (body : List FEntry) (hc : BodyContract s body 0)
     (hk : ∀ b ∈ body, b.kind = .other → b.s = b.e) :
     ((fluentWalk s body false).map (Entry.all s)).flatten = s.toList := by
-  sorry
+  have hb : ∀ body last, BodyContract s body last → BodyOK s body last := by
+    intro body
+    induction body with
+    | nil => intro _ _; trivial
+    | cons b rest ih => intro last h; exact ⟨h.1, h.2.1, h.2.2.1, ih _ h.2.2.2⟩
+  simpa [fluentWalk, slice_full] using fluentWalkFrom_all s body 0 (hb _ _ hc) (Nat.zero_le _) hk
+
+/-- non-vacuity: a body with a junk (leading and trailing blanks), a gap and a message satisfies the contract -/
+example : BodyContract #[32, 120, 10, 10, 97, 61, 98]
+    [{ kind := .junk, s := 0, e := 3 }, { kind := .message, s := 4, e := 7 }] 0 :=
+  ⟨by decide, by decide, by decide, by decide, by decide, by decide, trivial⟩
+
+/-- negation witness for `hk`: a non-empty `other` entry is dropped by the walk, so its text is lost -/
+example : ((fluentWalk #[120] [{ kind := .other, s := 0, e := 1 }] false).map (Entry.all #[120])).flatten
+    ≠ #[120].toList := by decide
 
 theorem fluent_localizable_is_filter (s : Array Nat) (body : List FEntry) :
     fluentWalk s body true = (fluentWalk s body false).filter Entry.localizable := by
-  sorry
+  exact fluentWalkFrom_filter s body 0
 
 /-- every entity's key span lies inside its own span (regex formats) -/
 theorem key_inside (f : Fmt) (s : Array Nat) (es : List Entry) (h : walk f s = .done es) :
     ∀ e ∈ es, e.kind = .entity → (e.s : Int) ≤ e.ks ∧ e.ks ≤ e.ke ∧ e.ke ≤ (e.e : Int) := by
-  sorry
+  have hk : ∀ off e', EOK s.size off e' → KeyIn e' := fun _ _ h => h.2.2.2
+  cases f <;> simp only [walk] at h
+  · exact walkFrom_all _ _ KeyIn (fun _ off ho => hk _ _ (propsGetNext_eok s off ho)) _ _ _ _ h
+  · exact walkFrom_all _ _ KeyIn (fun _ off ho => (dtdGetNext_ok s off ho).2.2.2.2) _ _ _ _ h
+  · exact walkFrom_all _ _ KeyIn (fun _ off ho => hk _ _ (iniGetNext_eok s off ho)) _ _ _ _ h
+  · exact walkFrom_all _ _ KeyIn (fun fel off ho => hk _ _ (definesGetNext_eok s fel off ho)) _ _ _ _ h
+  · exact walkFrom_all _ _ KeyIn (fun _ off ho => hk _ _ (getNext_eok poCfg poCfg_ok s off ho)) _ _ _ _ h
 
 end C01
